@@ -324,6 +324,58 @@ def generalized_masks():
                     cut_targets=())
 
 
+def generalized_contact_masks():
+  def body(A):
+    import z3
+    from verif.engine.opaque import cut
+    from brax.generalized import constraint
+    from brax.base import Motion, Transform
+    from verif.contracts.common import Stub
+    import brax.contact as bc
+    xml = ('<mujoco><worldbody><geom name="floor" type="plane" size="5 5 0.1"/><body name="a" pos="0 0 1"><joint type="hinge" axis="0 1 0"/><geom size="0.1" pos="0.3 0 0"/>'
+           '<body name="b" pos="0.5 0 0"><joint type="slide" axis="1 0 0"/><geom size="0.08"/></body></body></worldbody></mujoco>')
+    sys = physsys.load(xml)
+    n, nv, ncon = sys.num_links(), sys.qd_size(), 2
+    c = sym_contact(A, ncon, link_idx=(np.array([-1, 0]), np.array([0, 1])))
+    solref, solimp = A.arr('solref', (ncon, 2)), A.arr('solimp', (ncon, 5))
+    cobj = c.obj.replace(solref=Sym(solref), solimp=Sym(solimp))
+    state = Stub(x=Transform(pos=Sym(A.arr('xp', (n, 3))), rot=Sym(A.arr('xr', (n, 4)))), root_com=Sym(A.arr('rc', (n, 3))),
+                 cdof=Motion(ang=Sym(A.arr('da', (nv, 3))), vel=Sym(A.arr('dv', (nv, 3)))), qd=Sym(A.arr('qd', (nv,))))
+    sysL = sys.replace(link=sys.link.replace(invweight=Sym(A.arr('iw', (n,)))))
+
+    def h_imp(I_, P, ins):
+      # VERIFIED contract (C06/generalized.constraint._imp_aref/range): dmin <= dmax  =>  dmin <= imp <= dmax
+      outs = cuts.uf_handler('imp_aref')(I_, P, ins)
+      prm = I_.lift(ins[0])
+      rows = prm.reshape((-1, prm.shape[-1]))
+      o0 = np.asarray(outs[0], dtype=object).reshape((rows.shape[0], -1))
+      for b in range(rows.shape[0]):
+        for e in o0[b]:
+          A.assume += [e >= rows[b][2], e <= rows[b][3]]
+      return outs
+    real_get = bc.get
+
+    def f(ss_, st_, cc):
+      constraint.contact.get = lambda s_, x_: cc
+      try:
+        return constraint.jac_contact(ss_, st_)
+      finally:
+        constraint.contact.get = real_get
+    with cut('brax.generalized.constraint:_imp_aref'):
+      I = Interp(A, cuts={'brax.generalized.constraint:_imp_aref': h_imp})
+      jac, diag, aref = sym_call(I, f, sysL, state, cobj)
+    pre = list(c.pre) + [z3.And(solimp[k][0] > 0, solimp[k][0] <= solimp[k][1]) for k in range(ncon)]
+    goal = []
+    for k in range(ncon):
+      rows = range(4 * k, 4 * k + 4)
+      zero = z3.And(*[jac[r][cidx] == 0 for r in rows for cidx in range(nv)] + [diag[r] == 0 for r in rows] + [aref[r] == 0 for r in rows])
+      goal.append(z3.Implies(c.dist[k] >= 0, zero))
+    return pre, goal
+  return smt_custom('C06/generalized.constraint.jac_contact/masked', 'brax.generalized.constraint:jac_contact',
+                    'for ANY contact set (world--link and link--link): dist_k >= 0  =>  the four pyramid rows of contact k in the constraint jacobian, their diagonal regularisers and '
+                    'reference accelerations are exactly 0 (any state, solver parameters, friction): a contact that does not penetrate does not enter the solver', body, timeout=200, budget=600)
+
+
 def imp_aref_range():
   def body(A):
     import z3
@@ -782,7 +834,7 @@ def obligations(tier):
   obs = [spring_limits_inert('h', Q), spring_limits_inert('s', Q), spring_limits_inert('hh', Th), spring_limits_inert('hhh', Th), spring_limits_inert('ss', Th),
          positional_limits_inert('h', Q), positional_limits_inert('s', Q), positional_limits_inert('hh', Th),
          contact_inert('spring', 1, Q), contact_inert('spring', 2, Q), contact_inert('positional', 1, Q), contact_inert('positional', 2, Th),
-         generalized_masks(), imp_aref_range(), generalized_force_inert(),
+         generalized_masks(), generalized_contact_masks(), imp_aref_range(), generalized_force_inert(),
          unit_rot('spring', False, Q), unit_rot('spring', True, Q), unit_rot('positional', False, Q), unit_rot('positional', True, Q),
          integrate_unit('spring'), integrate_unit_ring(), push_only('spring'), push_only_positional(), restitution('positional'), restitution('spring'), bounded(tier)]
   # the assumed contract of the contact.get cut ("separated geometry is reported with dist >= 0") rests on contact.get handing the collision routine the
